@@ -474,6 +474,21 @@ def two_sessions(driver, res, r, tier):
                         p.step({'k': 'chunk', 'c': cid, 'hex': pool[pr].hex()})
                 if not p.sim.enabled({'k': 'lost', 'c': cid}):
                     break
+                if p.last['state'] == 'IDLE' and p.sim.world.connectors[cid].state == 'connected':
+                    # the agent says Idle but has not closed the connection: the peer has no reason to close it either, time passes
+                    for _ in range(3):
+                        w = p.sim.world
+                        due = [S.TIMER_NAMES.get(getattr(c.func, '__name__', None)) for c in w.due()]
+                        due = [d for d in due if d]
+                        if due:
+                            p.step({'k': 'fire', 't': due[0]})
+                            continue
+                        times = [c.time for c in w.calls if c.time > w.now]
+                        if not times:
+                            break
+                        p.step({'k': 'advance', 'dt': min(times) - w.now})
+                    if not p.sim.enabled({'k': 'lost', 'c': cid}):
+                        break
                 p.step({'k': 'lost', 'c': cid})
                 # wait for the idle-hold timer (firing whatever else becomes due on the way), then the next attempt is pending
                 for _ in range(12):
